@@ -9,6 +9,7 @@ Helper lemmas: `SkNet/Lemmas/Heat*.lean`.  All theorems hold for every graph siz
 import SkNet.Lemmas.HeatValues
 import SkNet.Lemmas.HeatHarmonic
 import SkNet.Lemmas.HeatConverge
+import SkNet.Lemmas.HeatExist
 
 namespace SkNet.C14
 open SkNet SkNet.Heat SkNet.HeatSpec
@@ -402,5 +403,59 @@ example : (getAdjacencyValues 3 3 4 pathW { values := .dict [(0, 0), (2, 1)] }).
     = some [0, -1, 1] := by decide +kernel
 example : (fit .dirichlet 3 3 4 pathW { values := .dict [(0, 0), (2, 1)] } 1 0).toOption.map (·.values)
     = some [0, 3/4, 1] := by decide +kernel
+
+/-- **harmonic_exists_unique**. On a graph with non-negative weights in which every node reaches a seed there is
+one and only one function (on the `n` nodes) that equals the seed temperatures on the boundary and the weighted mean
+of its neighbours elsewhere. (Existence: the Dirichlet problem is a linear system whose operator is injective by
+`harmonic_unique_of_reach`, hence surjective in finite dimension.) -/
+theorem harmonic_exists_unique (n : Nat) (w : Nat → Nat → Rat) (seed : Nat → Bool) (temp : Nat → Rat)
+    (hw : ∀ i j, i < n → j < n → 0 ≤ w i j)
+    (hreach : ∀ i, i < n → ∃ t, ReachesSeed n w seed t i) :
+    ∃ h : Nat → Rat, IsHarmonic n w seed temp h ∧
+      ∀ h' : Nat → Rat, IsHarmonic n w seed temp h' → ∀ i, i < n → h' i = h i := by
+  obtain ⟨h, H⟩ := harmonic_exists_of_reach hw hreach temp
+  exact ⟨h, H, fun h' H' => Heat.harmonic_unique_of_reach hw hreach H' H⟩
+
+/-- **The limit clause of C14, in one statement.** Let `p` be a prepared Dirichlet problem (non-negative weights,
+every node reaches a seed — e.g. a connected undirected graph with at least one seed). Then there is a function `h`,
+equal to the seeds on the boundary and to the weighted mean of its neighbours elsewhere, unique with these two
+properties, such that for every `ε > 0` the vector computed by `Dirichlet.fit` is within `ε` of `h` at every node
+for all sufficiently large `n_iter` (whatever `init`). -/
+theorem dirichlet_converges_to_the_harmonic_solution (p : Prepared) (init : Option Rat) (α : Rat)
+    (hlen : p.seeds.length = p.n) (hn : 0 < p.n)
+    (hA : ∀ i j, i < p.n → j < p.n → 0 ≤ p.adj i j)
+    (hreach : ∀ i, i < p.n → ∃ t, ReachesSeed p.n p.adj (fun i => decide (0 ≤ p.seeds.getD i 0)) t i) :
+    ∃ h : Nat → Rat,
+      IsHarmonic p.n p.adj (fun i => decide (0 ≤ p.seeds.getD i 0)) (fun i => p.seeds.getD i 0) h ∧
+      (∀ h' : Nat → Rat,
+        IsHarmonic p.n p.adj (fun i => decide (0 ≤ p.seeds.getD i 0)) (fun i => p.seeds.getD i 0) h' →
+        ∀ i, i < p.n → h' i = h i) ∧
+      ∀ ε : Rat, 0 < ε → ∃ K, ∀ k, K ≤ k → ∀ v, fitVector .dirichlet p init k α = .ok v →
+        ∀ i, i < p.n → absQ (v.getD i 0 - h i) ≤ ε := by
+  obtain ⟨h, H, huniq⟩ := harmonic_exists_unique p.n p.adj (fun i => decide (0 ≤ p.seeds.getD i 0))
+    (fun i => p.seeds.getD i 0) hA hreach
+  exact ⟨h, H, huniq, fun ε hε => dirichlet_converges p init α h hlen hn hA hreach H ε hε⟩
+
+/-- **The limit clause as the property words it**: an adjacency matrix of a *connected* graph (non-negative
+weights) with at least one seed. `Dirichlet(n_iter).fit(adjacency, values, init=…).values_` converges, as `n_iter`
+grows, to the unique function that equals the seeds on the boundary and the weighted mean of its neighbours
+elsewhere. -/
+theorem dirichlet_limit_connected (n nnz : Nat) (B : Nat → Nat → Rat) (a : Args) (α : Rat) (p : Prepared)
+    (hprep : getAdjacencyValues n n nnz B a = .ok p) (hbip : p.bipartite = false)
+    (hB : ∀ i j, 0 ≤ B i j) (hconn : Connected n B)
+    (b : Nat) (hb : b < n) (hs : 0 ≤ p.seeds.getD b 0) :
+    ∃ h : Nat → Rat,
+      IsHarmonic n B (fun i => decide (0 ≤ p.seeds.getD i 0)) (fun i => p.seeds.getD i 0) h ∧
+      (∀ h' : Nat → Rat, IsHarmonic n B (fun i => decide (0 ≤ p.seeds.getD i 0)) (fun i => p.seeds.getD i 0) h' →
+        ∀ i, i < n → h' i = h i) ∧
+      ∀ ε : Rat, 0 < ε → ∃ K : Nat, ∀ nIter : Int, (K : Int) ≤ nIter →
+        ∀ out, fit .dirichlet n n nnz B a nIter α = .ok out →
+          ∀ i, i < n → absQ (out.values.getD i 0 - h i) ≤ ε := by
+  have hreach : ∀ i, i < n → ∃ t, ReachesSeed n B (fun i => decide (0 ≤ p.seeds.getD i 0)) t i :=
+    connected_reachesSeed hconn hb (by simpa using hs)
+  obtain ⟨h, H, huniq⟩ := harmonic_exists_unique n B (fun i => decide (0 ≤ p.seeds.getD i 0))
+    (fun i => p.seeds.getD i 0) (fun i j _ _ => hB i j) hreach
+  exact ⟨h, H, huniq, fun ε hε =>
+    dirichlet_fit_converges n nnz B a α p h hprep hbip (by omega) hB hreach H ε hε⟩
 
 end SkNet.C14
